@@ -382,18 +382,19 @@ Proof.
 Qed.
 Print Assumptions contrast_cache_pure_without_direct_stat.
 
-(* (S3) FINDING state/stale-baseline/*/z_score: as coded, stat(b') does not drop the
-   cached p-value, so p_value(0); stat(1); z_score(1) returns the z-score of baseline 0. *)
-Theorem contrast_cache_z_pure_refuted :
+(* (S3) the invalidation is necessary (former finding state/stale-baseline/*/z_score,
+   fixed in /repo f45494e): in the machine WITHOUT it (flag false, the code before the
+   fix), p_value(0); stat(1); z_score(1) returns the z-score of baseline 0. *)
+Theorem contrast_cache_without_invalidation_counterexample :
   exists c ops, ~ Forall2 obs_equiv (run false (init_state c) ops) (run_pure c ops).
 Proof.
   exists (CBase 0), [OPval 0; OStat 1; OZ 1]. simpl. intros H.
   inversion H as [|? ? ? ? _ H1]; subst. inversion H1 as [|? ? ? ? _ H2]; subst.
   inversion H2 as [|? ? ? ? H3 _]; subst. simpl in H3. destruct H3 as [[_ E] _]. simpl in E. discriminate.
 Qed.
-Print Assumptions contrast_cache_z_pure_refuted.
+Print Assumptions contrast_cache_without_invalidation_counterexample.
 
-(* (S4) the repaired machine (stat() drops the cached p-value; reports/C06-fix-2.diff):
+(* (S4) the machine with the invalidation (stat() drops the cached p-value; /repo f45494e):
    every observable of every operation sequence is the pure value. *)
 Theorem contrast_cache_fixed_all_pure :
   forall c ops, Forall2 obs_equiv (run true (init_state c) ops) (run_pure c ops).
@@ -403,17 +404,22 @@ Proof.
 Qed.
 Print Assumptions contrast_cache_fixed_all_pure.
 
-(* (S5) the machine of the CURRENT source (the flag `stat() drops the cached p-value`
-   is translated from glm.py by harness/translate/zclip.py): stat and p_value are
-   pure for every sequence; z_score as well as soon as the flag is set. *)
-Theorem contrast_cache_current_source :
-  forall flag, flag = fmri_stat_drops_pvalue \/ flag = labs_stat_drops_pvalue ->
+(* (S5) the CURRENT source: the flags `stat() contains self.p_value_ = None` /
+   `self._pvalue = None` translated from nipy/modalities/fmri/glm.py and
+   nipy/labs/glm/glm.py (harness/translate/zclip.py) are both true, and for the
+   machine with these flags EVERY observable (stat, p_value, z_score) of EVERY
+   operation sequence (calls at arbitrary baselines, k*c, c*k, c+d, repeated calls)
+   is the value computed from the object's current contents at the requested
+   baseline.  Removing either assignment from the source breaks this proof. *)
+Theorem contrast_cache_current_source_all_pure :
+  fmri_stat_drops_pvalue = true /\ labs_stat_drops_pvalue = true /\
   forall c ops,
-  Forall2 stat_p_ok (run flag (init_state c) ops) (run_pure c ops) /\
-  (flag = true -> Forall2 obs_equiv (run flag (init_state c) ops) (run_pure c ops)).
+  Forall2 obs_equiv (run fmri_stat_drops_pvalue (init_state c) ops) (run_pure c ops) /\
+  Forall2 obs_equiv (run labs_stat_drops_pvalue (init_state c) ops) (run_pure c ops).
 Proof.
-  intros flag _ c ops. split.
-  - apply (run_stat_p_pure flag ops (init_state c)). apply inv_st_init.
-  - intros ->. apply contrast_cache_fixed_all_pure.
+  assert (E1 : fmri_stat_drops_pvalue = true) by (vm_compute; reflexivity).
+  assert (E2 : labs_stat_drops_pvalue = true) by (vm_compute; reflexivity).
+  split; [exact E1|]. split; [exact E2|]. intros c ops. rewrite E1, E2.
+  split; apply contrast_cache_fixed_all_pure.
 Qed.
-Print Assumptions contrast_cache_current_source.
+Print Assumptions contrast_cache_current_source_all_pure.
